@@ -41,6 +41,10 @@ type Interp struct {
 	Models   map[string]Model
 	NoInline map[string]bool                                       // repo functions kept uninterpreted
 	BinHook  func(in *Interp, op token.Token, x, y AVal) (AVal, bool) // client domain
+	// TableHook: a constant table (package-level map or array literal) is indexed with a value of a
+	// client domain (a kind token): the client partitions the trace on the table's distinct values.
+	// valueOf(k) is the table's entry for the integer k (ok=false: no such index/key).
+	TableHook func(in *Interp, idx AVal, valueOf func(k int64) (AVal, bool), zero AVal) (AVal, bool)
 	ConvHook func(in *Interp, x AVal, to types.Type) (AVal, bool)
 	LenHook  func(in *Interp, x AVal) (AVal, bool)
 	AtomHook func(in *Interp, atom string) (int, bool) // pre-decided atoms
@@ -73,6 +77,7 @@ type Interp struct {
 	globals   map[*ssa.Global]*Cell
 	symCells  map[string]*Cell
 	constGlob map[*ssa.Global]AVal
+	constTab  map[*ssa.Global]*constTable
 	hdrCache  map[*ssa.Function]map[*ssa.BasicBlock]bool
 }
 
@@ -90,6 +95,7 @@ type aiAbort struct {
 func NewInterp(p *Prog) *Interp {
 	in := &Interp{P: p, Models: map[string]Model{}, NoInline: map[string]bool{}, MaxSteps: 40000, MaxDepth: 8, MaxLoop: 10, WidenAfter: 1}
 	in.constGlob = constGlobals(p)
+	in.constTab = constTablesOf(p)
 	return in
 }
 
@@ -332,6 +338,13 @@ func (in *Interp) val(fr *frame, v ssa.Value) AVal {
 			c = &Cell{Label: name, T: x.Type().(*types.Pointer).Elem()}
 			if cv, ok := in.constGlob[x]; ok {
 				c.V = cv
+			} else if tab := in.constTab[x]; tab != nil && tab.m != nil {
+				c.V = *tab.m
+			} else if tab != nil && tab.arr != nil {
+				c.V = Sym{K: name, T: c.T}
+				for i, e := range tab.arr {
+					c.Elems = append(c.Elems, &Cell{ID: -1, Label: fmt.Sprintf("%s[%d]", name, i), V: e, T: tab.elem})
+				}
 			} else {
 				c.V = Sym{K: name, T: c.T}
 			}
@@ -800,6 +813,18 @@ func (in *Interp) evalValue(fr *frame, v ssa.Value) AVal {
 				}
 			}
 		}
+		if bp, ok := base.(Ptr); ok && len(bp.C.Elems) > 0 && in.TableHook != nil {
+			if g, isG := x.X.(*ssa.Global); isG && in.constTab[g] != nil {
+				if v, ok := in.TableHook(in, idx, func(i int64) (AVal, bool) {
+					if i < 0 || int(i) >= len(bp.C.Elems) {
+						return nil, false
+					}
+					return bp.C.Elems[i].V, true
+				}, nil); ok {
+					return Ptr{C: &Cell{ID: -1, Label: "", V: v, T: bp.C.Elems[0].T}}
+				}
+			}
+		}
 		havoc := func(arr *Cell) {
 			for _, e := range arr.Elems {
 				e.V = Sym{K: fmt.Sprintf("havoc(cell%d)", arr.ID), T: e.T}
@@ -896,6 +921,30 @@ func (in *Interp) evalValue(fr *frame, v ssa.Value) AVal {
 	case *ssa.Lookup:
 		m := in.val(fr, x.X)
 		k := in.val(fr, x.Index)
+		if cm, ok := m.(CstMap); ok {
+			if kc, isC := k.(Cst); isC && kc.V != nil {
+				v, found := cm.Entries[keyOf(kc)]
+				if !found {
+					et := x.Type()
+					if x.CommaOk {
+						et = x.Type().(*types.Tuple).At(0).Type()
+					}
+					v = zeroOf(et)
+				}
+				if x.CommaOk {
+					return Tup{E: []AVal{v, cstBool(found)}}
+				}
+				return v
+			}
+			if in.TableHook != nil && !x.CommaOk {
+				if v, ok := in.TableHook(in, k, func(i int64) (AVal, bool) {
+					e, found := cm.Entries[keyOf(Cst{V: constant.MakeInt64(i)})]
+					return e, found
+				}, zeroOf(x.Type())); ok {
+					return v
+				}
+			}
+		}
 		key := keyOf(m) + "[" + keyOf(k) + "]"
 		if x.CommaOk {
 			return Tup{E: []AVal{Sym{K: key, T: x.Type().(*types.Tuple).At(0).Type()}, Sym{K: "has(" + key + ")", T: types.Typ[types.Bool]}}}
@@ -1009,6 +1058,11 @@ func (in *Interp) convert(a AVal, to types.Type) AVal {
 	}
 	if c, ok := a.(Cst); ok && c.V == nil {
 		return Cst{T: to}
+	}
+	if t, ok := a.(Tok); ok && t.Dom == "kindof" {
+		if b, ok := to.Underlying().(*types.Basic); ok && b.Info()&types.IsInteger != 0 {
+			return t // a reflect.Kind (0..26) converted to an integer type keeps its value
+		}
 	}
 	return Sym{K: shortType(to.String()) + "(" + keyOf(a) + ")", T: to}
 }
